@@ -36,6 +36,11 @@ def step (_ : Unit) (ws : List String) : Unit × String :=
     match parseCmd rest with
     | some (f, s) => ((), showPair (cacheKey f s))
     | none => ((), "bad-op")
+  | ["reset"] => ((), "ok")
+  | "use" :: _ :: rest =>   -- the identity is a pure function of the argv: no state carries over between commands
+    match parseCmd rest with
+    | some (f, s) => ((), showPair (cacheKey f s))
+    | none => ((), "bad-op")
   | "addr" :: rest =>
     match parseCmd rest with
     | some (f, s) => match cacheKey f s with
